@@ -33,3 +33,6 @@ pub mod f0 {
 pub mod f8 {
     include!("f8_iter.rs");
 }
+pub mod f7 {
+    include!("f7_init.rs");
+}
